@@ -79,6 +79,9 @@ pub trait RealNumber: Copy + Sized + PartialEq + PartialOrd
     fn min(self, o: Self) -> (r: Self) ensures r == self.min_spec(o);
     fn is_nan(self) -> (r: bool) ensures r == self.is_nan_spec();
     fn to_usize(self) -> (r: Option<usize>) ensures r == self.to_usize_spec();
+    // added for C17 (Minkowski): FromPrimitive::from_u16
+    spec fn from_u16_spec(x: u16) -> Self;
+    fn from_u16(x: u16) -> (r: Option<Self>) ensures r == Some(Self::from_u16_spec(x));
 
     // crate::math::num::RealNumber::square has a default body in /repo: extracted verbatim
 //@extract src/math/num.rs :: pub trait RealNumber: Float + FromPrimitive + Debug + Display + Copy + Sum + Product + AddAssign + SubAssign + MulAssign + DivAssign :: square :: ret=r canary=no
